@@ -75,6 +75,16 @@ def allOf (ts : List Term) (i : Nat) : List Nat := ((getT ts i).map (·.allParen
 def childrenOf (ts : List Term) (i : Nat) : List Nat := ((getT ts i).map (·.children)).getD []
 def annOf (k : Kind) (ts : List Term) (i : Nat) : List Nat := ((getT ts i).map (·.ann k)).getD []
 
+theorem get_eq_getT (o : Onto) (j : Nat) (hs : ∀ j, (getT o.terms j).isSome → j < maxId) :
+    o.get j = getT o.terms j := by
+  unfold Onto.get arenaGet
+  split
+  · rename_i hge
+    cases h : getT o.terms j with
+    | none => rfl
+    | some t => have := hs j (by simp [h]); omega
+  · rfl
+
 /-! ### records -/
 
 theorem getR_id {rs : List Rec} {j : Nat} {r : Rec} (h : getR rs j = some r) : r.id = j := by
